@@ -92,6 +92,9 @@ def run(replay=None):
     from harness import build, grammar, render
     dsh, st4 = grammar.enumerate_shapes('disj')
     rep.add_tlc(st4)
+    qsh, st5 = grammar.enumerate_shapes('quant')        # ... and events with a reference to a name outside a quantifier binding it
+    rep.add_tlc(st5)
+    dsh = dsh + qsh
     nev = 0
     seen_ev = set()
     for sh in dsh:
